@@ -11,6 +11,7 @@ import (
 	"sort"
 	"strings"
 	"sync"
+	"time"
 
 	"github.com/mark3labs/flyt"
 )
@@ -268,12 +269,37 @@ type keysSnap struct {
 	perm  []int // positions of the slice in ascending key-token order at creation time
 }
 
+// runStoreSeq runs the sequence under a watchdog: a store operation that never returns (a lock that is never released)
+// ends the history with a "hang" event instead of hanging the harness.
 func runStoreSeq(steps []seqStep) []Event {
-	var evs []Event
+	var mu sync.Mutex
+	var shared []Event
+	done := make(chan struct{})
+	go func() {
+		defer close(done)
+		runStoreSeqInner(steps, func(e Event) {
+			mu.Lock()
+			shared = append(shared, e)
+			mu.Unlock()
+		})
+	}()
+	select {
+	case <-done:
+	case <-time.After(2 * time.Second):
+		mu.Lock()
+		shared = append(shared, Event{"ev": "hang"})
+		mu.Unlock()
+	}
+	mu.Lock()
+	defer mu.Unlock()
+	return append([]Event{}, shared...)
+}
+
+func runStoreSeqInner(steps []seqStep, emit func(Event)) {
 	func() {
 		defer func() {
 			if p := recover(); p != nil {
-				evs = append(evs, Event{"ev": "panic", "msg": fmt.Sprint(p)})
+				emit(Event{"ev": "panic", "msg": fmt.Sprint(p)})
 			}
 		}()
 		s := flyt.NewSharedStore()
@@ -296,14 +322,14 @@ func runStoreSeq(steps []seqStep) []Event {
 					snaps = append(snaps, &keysSnap{slice: sl, perm: perm})
 					sid = len(snaps)
 				}
-				evs = append(evs, Event{"ev": "op", "op": st.Op.Op, "k": st.Op.K, "v": st.Op.V, "m": mJSON(st.Op.M), "d": st.Op.D, "res": res, "snap": sid})
+				emit(Event{"ev": "op", "op": st.Op.Op, "k": st.Op.K, "v": st.Op.V, "m": mJSON(st.Op.M), "d": st.Op.D, "res": res, "snap": sid})
 			case "mutsnap":
 				if st.Snap < 1 || st.Snap > len(snaps) {
 					continue
 				}
 				if m, ok := snaps[st.Snap-1].(map[string]any); ok {
 					m[keyName(st.K)] = storeVal(st.V)
-					evs = append(evs, Event{"ev": "mutsnap", "snap": st.Snap, "k": st.K, "v": st.V})
+					emit(Event{"ev": "mutsnap", "snap": st.Snap, "k": st.K, "v": st.V})
 				}
 			case "mutkeys":
 				if st.Snap < 1 || st.Snap > len(snaps) {
@@ -311,7 +337,7 @@ func runStoreSeq(steps []seqStep) []Event {
 				}
 				if ks, ok := snaps[st.Snap-1].(*keysSnap); ok && len(ks.slice) > 0 {
 					ks.slice[ks.perm[0]] = keyName(st.K)
-					evs = append(evs, Event{"ev": "mutkeys", "snap": st.Snap, "k": st.K})
+					emit(Event{"ev": "mutkeys", "snap": st.Snap, "k": st.K})
 				}
 			case "mergesnap":
 				if st.Snap < 1 || st.Snap > len(snaps) {
@@ -319,7 +345,7 @@ func runStoreSeq(steps []seqStep) []Event {
 				}
 				if m, ok := snaps[st.Snap-1].(map[string]any); ok {
 					s.Merge(m)
-					evs = append(evs, Event{"ev": "mergesnap", "snap": st.Snap})
+					emit(Event{"ev": "mergesnap", "snap": st.Snap})
 				}
 			case "readsnap":
 				if st.Snap < 1 || st.Snap > len(snaps) {
@@ -336,11 +362,10 @@ func runStoreSeq(steps []seqStep) []Event {
 					}
 					e["keys"] = l
 				}
-				evs = append(evs, e)
+				emit(e)
 			}
 		}
 	}()
-	return evs
 }
 
 func stepsFromHistory(h []any) []seqStep {
@@ -616,14 +641,24 @@ func init() {
 				exp := asList(line["h"])
 				steps := stepsFromHistory(exp)
 				id++
-				o.WriteScenario(id, "store", "tlc", map[string]any{"steps": stepsToJSON(steps)}, exp, runStoreSeq(steps))
+				if tooManyHangs() {
+					break
+				}
+				evs := runStoreSeq(steps)
+				noteHang(evs)
+				o.WriteScenario(id, "store", "tlc", map[string]any{"steps": stepsToJSON(steps)}, exp, evs)
 			}
 		}
 		r := rand.New(rand.NewSource(seed*31337 + 5))
 		for i := 0; i < count; i++ {
 			steps := genStoreSeq(r)
 			id++
-			o.WriteScenario(id, "store", "gen", map[string]any{"steps": stepsToJSON(steps)}, nil, runStoreSeq(steps))
+			if tooManyHangs() {
+				break
+			}
+			evs := runStoreSeq(steps)
+			noteHang(evs)
+			o.WriteScenario(id, "store", "gen", map[string]any{"steps": stepsToJSON(steps)}, nil, evs)
 		}
 	}
 	families["storeconc"] = func(o *Out, scnFile string, seed int64, count int, modes string, opts map[string]string) {
@@ -652,6 +687,13 @@ func init() {
 				for g, l := range runStoreChurn(r, owners, 1200, 40000, resident) {
 					id++
 					o.WriteScenario(id, "storeowner", "gen", map[string]any{"run": i + 1, "owner": g + 1, "owners": owners, "resident": resident}, nil, l)
+				}
+				if i%3 == 1 {
+					// one writer (Merge of 16 keys / Clear), readers of the aggregate views
+					for g, l := range runStoreAggregate(3000, 3, 150) {
+						id++
+						o.WriteScenario(id, "storeagg", "gen:agg", map[string]any{"run": i + 1, "owner": g + 1, "owners": 3, "resident": 16}, nil, l)
+					}
 				}
 				if i%3 == 0 {
 					// fill-and-clear cycles of one owner while another goroutine keeps writing
